@@ -68,6 +68,10 @@ type c06Case struct {
 	// 3 SetReadLimit(L) is repeated before every message; 4 SetReadLimit(L) is repeated between the
 	// Read calls of every message (the same value: the limit in force never changes)
 	LimitHist int `json:"limit_history,omitempty"`
+	// CloseHandler: 0 default; 1 the application installed a bookkeeping-only close handler; 2 one that
+	// answers with its own close 1000. The peer sends no close in these streams: the handler must
+	// never run, and the 1009 close of a breach is the library's own business
+	CloseHandler int `json:"custom_close_handler,omitempty"`
 }
 
 func runC06(ctx *core.Ctx, out *core.Out) {
@@ -90,6 +94,9 @@ func runC06(ctx *core.Ctx, out *core.Out) {
 	}
 	if r.Chance(1, 3) {
 		cs.LimitHist = 1 + r.Intn(4)
+	}
+	if r.Chance(1, 4) {
+		cs.CloseHandler = 1 + r.Intn(2)
 	}
 	cs.L = int64([]int{1, 2, 10, 124, 125, 126, 127, 1000, 65535, 65536}[r.Intn(10)])
 	if r.Chance(1, 4) {
@@ -219,6 +226,22 @@ func runC06(ctx *core.Ctx, out *core.Out) {
 	if cs.LimitHist != 0 {
 		out.Count("limit_changed_mid_connection", 1)
 	}
+	closeHandlerCalls := 0
+	switch cs.CloseHandler {
+	case 1:
+		c.SetCloseHandler(func(code int, text string) error { closeHandlerCalls++; return nil })
+	case 2:
+		c.SetCloseHandler(func(code int, text string) error {
+			closeHandlerCalls++
+			c.WriteControl(ws.CloseMessage, ws.FormatCloseMessage(1000, "bye"), time.Now().Add(time.Second))
+			return nil
+		})
+	}
+	defer func() {
+		if closeHandlerCalls != 0 {
+			out.Violate("C06:close-handler-called-without-a-close-from-the-peer", fmt.Sprintf("the application's close handler ran %d times although the peer never sent a close frame", closeHandlerCalls), map[string]interface{}{"case": cs})
+		}
+	}()
 	// the application may already have sent its close frame (and keeps reading), or the
 	// write side of the transport may be broken: neither changes what the reader must do
 	switch {
